@@ -129,6 +129,15 @@ SEQ_TEXT = ('Theorems (Coq, all lengths / states / histories): the Model refines
 CHECKS = {}
 for pid, pred in (('C01', is_c01), ('C04', is_c04), ('C05', is_c05), ('C06', is_c06), ('C11', is_c11), ('C12', is_c12), ('C18', is_c18)):
     CHECKS[pid] = SeqCheck(pid, pred, SEQ_TEXT % pid)
+def c04_safe_ops(ctx, seqrun, stats, divs):
+    """the sentence `no safe operation moves an iterator past the iterator ahead`: safe methods whose contract fails"""
+    for key, lst in sorted(stats.safe_breaks.items()):
+        if not ctx.known_finding(key, ''):
+            h, cfg, ops = min(lst, key=lambda x: len(x[2]))
+            ctx.violation(f'a safe operation leaves the contract of the Spec ({key}): it can move an iterator past the iterator ahead',
+                          '\n'.join([h, cfg] + ops) + f'\n## {key}: the last operation is a safe fn, yet its position contract does not hold in this state\n')
+    ctx.notes['safe_ops_off_contract'] = {k: len(v) for k, v in stats.safe_breaks.items()}
+CHECKS['C04'].extra = c04_safe_ops
 for pid in ('C06', 'C11', 'C12'):
     CHECKS[pid].with_async = True   # anchors include the async wrappers / AsyncDetached
 
